@@ -71,6 +71,25 @@ def _merge_measures(acc, m):
             acc[k] = acc.get(k, 0) + v
 
 
+def safe_execute(check, desc, ctx):
+    """check.execute, but an exception raised by the code under test (a frame below /verif's last frame lies in the
+    repository) is that run's violation, not a fault of the harness"""
+    try:
+        return check.execute(desc, ctx)
+    except Exception as e:
+        tb = traceback.extract_tb(e.__traceback__)
+        repo = os.path.abspath(os.environ.get("VERIF_REPO", "/repo")) + os.sep
+        last_verif = max([i for i, f in enumerate(tb) if os.path.abspath(f.filename).startswith(VERIF + os.sep)] or [-1])
+        sut = [f for f in tb[last_verif + 1:] if os.path.abspath(f.filename).startswith(repo)]
+        if not sut:
+            raise
+        where = "%s:%s" % (os.path.basename(sut[-1].filename), sut[-1].name)
+        return {"digest": "raised:%s:%s" % (type(e).__name__, where), "sig": "raised", "nontrivial": True, "measures": {},
+                "viol": {"class": "raises", "key": "%s:raises:%s" % (desc.get("entry", check.id), where),
+                         "detail": "the code under test raised %s: %s (in %s line %d) on a generated-valid call" %
+                                   (type(e).__name__, str(e)[:200], where, sut[-1].lineno)}}
+
+
 # ---------------------------------------------------------------------- workers
 def _worker(check, ctx, indices, wfd, t_deadline, selftest_every):
     """runs in a forked child; writes one JSON line per event to wfd"""
@@ -85,7 +104,7 @@ def _worker(check, ctx, indices, wfd, t_deadline, selftest_every):
             out.flush()
             rs = run_seed(ctx.seed, i)
             desc = check.gen(rs, ctx)
-            res = check.execute(desc, ctx)
+            res = safe_execute(check, desc, ctx)
             rec = {"t": "res", "i": i, "digest": res["digest"], "sig": res.get("sig", res["digest"]),
                    "nontrivial": bool(res.get("nontrivial", True)), "measures": res.get("measures", {}),
                    "viol": res.get("viol")}
@@ -95,7 +114,7 @@ def _worker(check, ctx, indices, wfd, t_deadline, selftest_every):
                 rec["sample"] = check.describe(desc)
             if selftest_every and n % selftest_every == 0:
                 # same seed twice in one process: identical event-log digest
-                res2 = check.execute(check.gen(rs, ctx), ctx)
+                res2 = safe_execute(check, check.gen(rs, ctx), ctx)
                 if res2["digest"] != res["digest"]:
                     rec["nondet"] = [res["digest"], res2["digest"]]
                 rec["selftest"] = 1
@@ -194,7 +213,7 @@ def run_single_isolated(check, ctx, desc, timeout_s=300):
     if pid == 0:
         os.close(r)
         try:
-            res = check.execute(desc, ctx)
+            res = safe_execute(check, desc, ctx)
             os.write(w, json.dumps(res).encode())
             os._exit(0)
         except BaseException:
